@@ -270,6 +270,8 @@ def build_query(identifier, session, query=None):
                 pass
             elif vr in ["DA", "TM", "DT"] and "-" in val:
                 pass
+            elif vr == "UI" and elem.VM > 1:
+                pass
             else:
                 # print('Performing single value matching...')
                 query = _search_single_value(elem, session, query)
